@@ -987,6 +987,192 @@ run_twoconn(void *argp)
 	vh_fini();
 }
 
+// ---- reconnect with a backlog: the first peer goes away while A holds unread messages, then a new peer ----
+// A (listener) has receive buffer 0/1/2 and k unread messages from B (some in the buffer, one waiting on
+// the connection).  The connection ends in one of four ways, A drains before or after the new peer C has
+// connected, then C and A exchange three numbered messages each way.  What B sent comes out in order and at
+// most once (what was still on the way may be lost with the connection); the exchange with C is complete
+// and in order, and nothing of B's arrives after C's first message.
+static void
+run_reconnect(void *arg)
+{
+	int proto = (int) (intptr_t) arg;
+	vh_init(0);
+	int rbuf   = vs_choose(VK_ENV, 3);
+	int k      = vs_choose(VK_ENV, 5);      // 0..4 unread messages
+	int how    = vs_choose(VK_ENV, 4);      // 0 B closes, 1 A closes the pipe, 2 B closes its dialer, 3 B closes + A sends
+	int drain1 = vs_choose(VK_ENV, 2);      // A drains before C connects
+	int (*op)(nng_socket *) = proto ? nng_pair1_open : nng_pair0_open;
+	nng_socket a, b, c;
+	nng_dialer bd;
+	VH_OK(op(&a));
+	VH_OK(op(&b));
+	VH_OK(op(&c));
+	VH_OK(nng_socket_set_int(a, NNG_OPT_RECVBUF, rbuf));
+	VH_OK(nng_socket_set_int(c, NNG_OPT_RECVBUF, 4)); // (A's three messages and a stale one fit)
+	vs_log("rbuf=%d unread=%d way=%d drain-first=%d", rbuf, k, how, drain1);
+	VH_OK(nng_socket_set_ms(a, NNG_OPT_RECVTIMEO, 20));
+	VH_OK(nng_socket_set_ms(c, NNG_OPT_RECVTIMEO, 20));
+	VH_OK(nng_socket_set_ms(a, NNG_OPT_SENDTIMEO, 20));
+	VH_OK(nng_socket_set_ms(c, NNG_OPT_SENDTIMEO, 20));
+	VH_OK(nng_listen(a, "inproc://c08rc", NULL, 0));
+	VH_OK(nng_dial(b, "inproc://c08rc", &bd, 0));
+	vs_settle();
+	int sentb = 0;
+	for (int i = 0; i < k; i++) {
+		nng_msg *m;
+		VH_OK(nng_msg_alloc(&m, 0));
+		VH_OK(nng_msg_append_u32(m, 0xb0000000u + (uint32_t) i));
+		if (nng_sendmsg(b, m, NNG_FLAG_NONBLOCK) != 0) {
+			nng_msg_free(m);
+			break;
+		}
+		sentb++;
+		vs_settle();
+	}
+	// the pipe A sees (for how == 1) - learnt from a message would consume one; use the notify-free way:
+	// close by id is not available without a message, so "A closes the pipe" takes the first message
+	// (if any) non-destructively via its pipe handle and puts nothing back: it counts as received
+	int      gotb = 0;
+	uint32_t v;
+	nng_msg *m;
+	switch (how) {
+	case 0:
+	case 3:
+		nng_socket_close(b);
+		break;
+	case 1:
+		if (sentb > 0 && nng_recvmsg(a, &m, NNG_FLAG_NONBLOCK) == 0) {
+			nng_pipe p = nng_msg_get_pipe(m);
+			if (nng_msg_len(m) != 4 || nng_msg_trim_u32(m, &v) != 0 || v != 0xb0000000u)
+				vs_fail("C08:order", "first message of B is %08x", v);
+			gotb = 1;
+			nng_msg_free(m);
+			nng_pipe_close(p);
+		} else
+			nng_socket_close(b);
+		break;
+	default:
+		nng_dialer_close(bd);
+		break;
+	}
+	vs_settle();
+	if (how == 3) {
+		VH_OK(nng_msg_alloc(&m, 0));
+		VH_OK(nng_msg_append_u32(m, 0xa0000000u));
+		if (nng_sendmsg(a, m, NNG_FLAG_NONBLOCK) != 0)
+			nng_msg_free(m);
+		vs_settle();
+	}
+	int phase = 0; // 0 = B's messages may still come, 1 = C's have started
+	int gotc = 0, sentc = 0;
+	for (int round = 0; round < 2; round++) {
+		if (round == 0 ? drain1 : 1) {
+			while (nng_recvmsg(a, &m, round == 0 ? NNG_FLAG_NONBLOCK : 0) == 0) {
+				v = 0;
+				if (nng_msg_len(m) != 4 || nng_msg_trim_u32(m, &v) != 0)
+					vs_fail("C08:phantom", "a message of %zu bytes nobody sent", nng_msg_len(m));
+				nng_msg_free(m);
+				if ((v & 0xf0000000u) == 0xb0000000u) {
+					int i = (int) (v & 0xffff);
+					if (phase == 1)
+						vs_fail("C08:order", "B's message %d delivered after C's first message", i);
+					if (i < gotb || i >= sentb)
+						vs_fail(i < gotb ? "C08:duplicate" : "C08:phantom",
+						    "B's message %d delivered (next expected >= %d, %d were sent)", i, gotb,
+						    sentb);
+					gotb = i + 1;
+				} else if ((v & 0xf0000000u) == 0xc0000000u) {
+					int i = (int) (v & 0xffff);
+					phase = 1;
+					if (i != gotc)
+						vs_fail(i < gotc ? "C08:duplicate" : "C08:order",
+						    "C's message %d delivered, expected %d", i, gotc);
+					gotc++;
+				} else
+					vs_fail("C08:phantom", "message %08x nobody sent to A", v);
+			}
+		}
+		if (round == 0) {
+			// (A may still be attached to B - whose messages are in transit or whose departure it has
+			// not seen: C is refused and redials; when A is reading C's send waits for that)
+			if (drain1)
+				VH_OK(nng_socket_set_ms(c, NNG_OPT_SENDTIMEO, 3000));
+			int rv = nng_dial(c, "inproc://c08rc", NULL, 0);
+			vs_settle();
+			if (rv != 0)
+				vs_fail("C08:new-peer-refused",
+				    "after the first peer had gone (way %d), a new peer's dial failed: %s", how,
+				    nng_strerror(rv));
+			for (int i = 0; i < 3; i++) {
+				VH_OK(nng_msg_alloc(&m, 0));
+				VH_OK(nng_msg_append_u32(m, 0xc0000000u + (uint32_t) i));
+				int srv = nng_sendmsg(c, m, 0);
+				if (srv != 0) {
+					nng_msg_free(m);
+					if (!drain1) // A is not reading yet: back-pressure is what the statement asks for
+						break;
+					vs_fail("C08:lost", "the new peer's send %d failed: %s (A rbuf %d, draining %s)",
+					    i, nng_strerror(srv), rbuf, drain1 ? "before" : "after");
+				}
+				sentc++;
+				if (drain1) {
+					// lock-step when A is reading: receive it now
+					nng_msg *r;
+				again:
+					if (nng_recvmsg(a, &r, 0) != 0)
+						vs_fail("C08:lost", "message %d of the new peer did not arrive", i);
+					v = 0;
+					nng_msg_trim_u32(r, &v);
+					nng_msg_free(r);
+					if ((v & 0xf0000000u) == 0xb0000000u && phase == 0 && (int) (v & 0xffff) >= gotb &&
+					    (int) (v & 0xffff) < sentb) {
+						gotb = (int) (v & 0xffff) + 1; // a late message of B, still ahead of C's
+						goto again;
+					}
+					if (v != 0xc0000000u + (uint32_t) i)
+						vs_fail("C08:order", "new peer: expected message %d, got %08x", i, v);
+					phase = 1;
+					gotc++;
+				}
+			}
+		}
+	}
+	if (gotc != sentc)
+		vs_fail("C08:lost", "the new peer's sends succeeded %d times, A received %d of them", sentc, gotc);
+	// (if A learnt of B's departure only while draining, C was refused meanwhile and is redialling)
+	VH_OK(nng_socket_set_ms(a, NNG_OPT_SENDTIMEO, 3000));
+	VH_OK(nng_socket_set_ms(c, NNG_OPT_RECVTIMEO, 3000));
+	// A -> C, three in lock-step (the stale message of way 3 was for B: it may be lost, or arrive first)
+	for (int i = 0; i < 3; i++) {
+		VH_OK(nng_msg_alloc(&m, 0));
+		VH_OK(nng_msg_append_u32(m, 0xa0000001u + (uint32_t) i));
+		if (nng_sendmsg(a, m, 0) != 0) {
+			nng_msg_free(m);
+			vs_fail("C08:lost", "A's send %d to the new peer failed", i);
+		}
+		for (;;) {
+			nng_msg *r;
+			if (nng_recvmsg(c, &r, 0) != 0)
+				vs_fail("C08:lost", "A's message %d did not reach the new peer", i);
+			v = 0;
+			nng_msg_trim_u32(r, &v);
+			nng_msg_free(r);
+			if (v == 0xa0000000u && how == 3 && i == 0)
+				continue;
+			if (v != 0xa0000001u + (uint32_t) i)
+				vs_fail("C08:order", "new peer received %08x, expected message %d of A", v, i);
+			break;
+		}
+	}
+	vs_outcome("rbuf%d k%d/%d how%d d%d gotb%d gotc%d", rbuf, k, sentb, how, drain1, gotb, gotc);
+	nng_socket_close(a);
+	if (how != 0 && how != 3 && !(how == 1 && sentb == 0))
+		nng_socket_close(b);
+	nng_socket_close(c);
+	vh_fini();
+}
+
 int
 main(int argc, char **argv)
 {
@@ -1128,6 +1314,16 @@ main(int argc, char **argv)
 		c.budget[VB_ENV]     = -1;
 		c.total              = two ? 2 : 1;
 		c.deadline_s         = vx_is_thorough() ? 120 : 15;
+		vx_explore(&c, NULL);
+	}
+	for (int p = 0; p < 2; p++) {
+		vx_cfg c;
+		memset(&c, 0, sizeof(c));
+		c.prop           = "C08";
+		c.scenario       = p ? "reconnect-backlog-pair1" : "reconnect-backlog-pair0";
+		c.run            = run_reconnect;
+		c.arg            = (void *) (intptr_t) p;
+		c.budget[VB_ENV] = -1;
 		vx_explore(&c, NULL);
 	}
 	SR_PROP = "C08";
